@@ -196,6 +196,11 @@ SDEF_ASSIGN = [{}, {'depth': '1800'}, {'depth': '30'}, {'leeway': '16'}, {'leewa
                {'drm': 'playready'}, {'drm': 'playready', 'playready__version': '2.0'},
                {'drm': 'playready', 'playready__version': '3.0'}, {'drm': 'playready', 'playready__version': 'none'}]
 SDEF_NAMES = ['depth', 'leeway', 'ping__interval', 'ping__inband', 'playready__version']
+# list- and selection-valued defaults, overridden by their empty value, by another value and not at all
+SDEF2 = {'eventTypes': ['ping'], 'drmSelection': [['playready', ['pro', 'cenc', 'moov']]], 'bugCompatibility': ['saio']}
+SDEF2_ASSIGN = [{}, {'events': 'none'}, {'events': 'scte35'}, {'events': 'ping'}, {'drm': 'none'}, {'drm': 'clearkey'},
+                {'bugs': 'none'}, {'events': 'none', 'drm': 'none', 'bugs': 'none'}]
+SDEF2_NAMES = ['events', 'drm', 'bugs']
 
 
 def integration_item(item):
@@ -305,7 +310,8 @@ def integration_item_(item, sdef):
                 acc.violation(sig('media-url-unparsable', type(e).__name__, mtype),
                               f'{url}: the server\'s own option parser rejects the {what} URL {u}: {e}', rec)
                 got = None
-            names = list(assign) + ([n for n in SDEF_NAMES if n not in assign] if sdef else [])
+            extra_names = (SDEF2_NAMES if 'eventTypes' in sdef else SDEF_NAMES) if sdef else []
+            names = list(assign) + [n for n in extra_names if n not in assign]
             for name in names:
                 opt = cgi_map.get(name)
                 if opt is None or not applies(opt, mtype, use) or got is None:
@@ -411,6 +417,8 @@ def plan(tier):
     for t, m in templates[:(2 if tier == 'quick' else 5)]:
         for a in SDEF_ASSIGN:
             items.append((t, m, a, SDEF))
+        for a in SDEF2_ASSIGN:
+            items.append((t, m, a, SDEF2))
     if tier != 'quick':
         groups = [('start', 'depth', 'leeway'), ('drm', 'playready__version', 'playready__piff', 'playready__la_url', 'bugs'),
                   ('verr', 'aerr', 'terr', 'failures'), ('events', 'ping__interval', 'ping__inband', 'scte35__inband')]
